@@ -205,6 +205,8 @@ func (t *tailBuf) String() string { t.mu.Lock(); defer t.mu.Unlock(); return str
 
 var cur *child
 
+var hangs = map[string]int{}
+
 func startChild() *child {
 	c := &child{errBuf: &tailBuf{}, lines: make(chan string, 4)}
 	c.cmd = exec.Command(os.Args[0], "exec", "C12")
@@ -265,6 +267,18 @@ func execParent(line string) (res h.Result) {
 	op := strings.Fields(line)[0]
 	res.Class = op
 	res.Nontrivial = nontrivial(line)
+	// fail fast: an entry point that hung three times in this run is not waited for again
+	if hangs[op] >= 3 && !strings.HasPrefix(op, "fzparse") {
+		res.Impl = "hang"
+		res.Oracle = fmt.Sprintf("hang-%s: not run: this entry point already hung %d times in this run", op, hangs[op])
+		res.Class = op + "-hang"
+		return
+	}
+	defer func() {
+		if res.Impl == "hang" || strings.HasPrefix(res.Oracle, "hang-") {
+			hangs[op]++
+		}
+	}()
 	if cur == nil {
 		cur = startChild()
 	}
